@@ -1,28 +1,34 @@
 import MemVerif.Lemmas.C01PoolG
 /-!
-# C01 — `memory_pool` over either intrusive free list (unordered **and ordered**)
+# C01 — `memory_pool` over each of the three free lists (unordered, **ordered**, **small node**)
 
 `memory_pool<node_pool>` uses the unordered list in release builds and the address-ordered list when
-double-deallocation checking is on (Debug); `memory_pool<array_pool>` always uses the ordered list. This file states
-C01 for both at once. Model: `Pool` (Model/Pool.lean) with `list = .free _` or `.ord _`, run by the
+double-deallocation checking is on (Debug); `memory_pool<array_pool>` always uses the ordered list;
+`memory_pool<small_node_pool>` uses the chunked small node list. This file states C01 for all of them at once. Model: `Pool` (Model/Pool.lean) with `list = .free _`, `.ord _` or `.small _`, run by the
 ghost-instrumented history semantics of `Model/PoolRun.lean` (`GPool`, `POp`; see `Props/C01.lean`).
 
 Invariant `PInvG ns o p live` (`Lemmas/C01PoolG.lean`):
 * the list's own structural invariant `AnyList.SInv` — unordered: `capacity = length`; ordered: `OrdList.Inv`
   (node addresses strictly ascending = list order, proxies are not nodes, `capacity = length`, and the cached insert
-  position `(last_dealloc_prev_, last_dealloc_)` is a pair of *adjacent* list positions);
+  position `(last_dealloc_prev_, last_dealloc_)` is a pair of *adjacent* list positions); small: `SmallOk` (free
+  chains duplicate-free and within the chunk, chunk and list counters exact, chunk ring in ascending address order
+  with disjoint extents, both chunk cursors on the proxy or on a chunk, every chunk inside a used block, every live
+  node on the node grid of a chunk);
 * the partition invariant `CellInv` over the list's free cells: free cells and the cells of all live allocations are
   pairwise disjoint, every one inside the usable part of a used block.
 
 Environment (`EnvOkG`, hypothesis on the final used-block list, which contains every block ever held): blocks are well
-formed and pairwise disjoint (`BlocksOk`), and the ordered list's two proxy words `[B, B + 16)` — members of the
-pool object — lie outside every block (`ObjOut`): the pool object is not placed inside memory that its own block
+formed and pairwise disjoint (`BlocksOk`), and the proxy words `[B, B + 16)` of the ordered list (two proxy nodes)
+or the small list (proxy chunk header) — members of the pool object — lie outside every block (`ObjOut`): the pool object is not placed inside memory that its own block
 source hands out afterwards.
 
 What the ordered-list proof adds to the unordered one: `find_pos` (cursor-guided two-ended search, D14 repair
 included) finds the insert position for every released node/array and for every new block
 (`findPos_valid'`), `insert_impl` splices runs in keeping order and cursor (`splice_run_inv`), `allocate(n)`
 removes a contiguous segment and repairs the cursor in its three cases (`OrdList.allocateBytes_run`).
+What the small-list proof adds: the two-cursor chunk search finds the chunk of every live node from every cursor
+state (`findChunk_complete`), the three pointer checks never fire for a live node, `insert` builds chunks in
+ascending order inside the block (`smallInsertChunks_geo`) and splices them into the ring keeping it sorted.
 All theorems: every configuration (assertions, double-free check on or off), every environment, every node size,
 every history; the one extra hypothesis `POp.Fits` is forced by D21 (`C01.C01_pool_allocArray_overflow_cex`).
 -/
@@ -30,27 +36,34 @@ namespace MemVerif.Props.C01Ord
 open MemVerif.Model
 
 /-- the invariant of an instrumented pool, with the node size and list object it was created with -/
-def GInvG (ns : Nat) (o : Option Nat) (g : GPool) : Prop := PInvG ns o g.p g.live
+def GInvG (ns : Nat) (o : AnyList.ListObj) (g : GPool) : Prop := PInvG ns o g.p g.live
 
 /-- The constructor of a pool over the **ordered** list establishes the invariant, whatever the outcome of its block
 request: `B` is the address of the list's begin proxy (`0 < B`; the end proxy is the next word). -/
 theorem C01_ordpool_create (cfg : Cfg) (src : Src) (nodeSize B : Nat) (hB : 0 < B) (arrays : Bool)
     (env : List (Option Nat))
-    (henv : EnvOkG (some B) (Pool.create cfg src (.ord (OrdList.new nodeSize B (B + 8))) arrays env).st.arena.used) :
-    GInvG (intrusiveNodeSize nodeSize) (some B)
+    (henv : EnvOkG (.ordered B) (Pool.create cfg src (.ord (OrdList.new nodeSize B (B + 8))) arrays env).st.arena.used) :
+    GInvG (intrusiveNodeSize nodeSize) (.ordered B)
       ⟨(Pool.create cfg src (.ord (OrdList.new nodeSize B (B + 8))) arrays env).st, []⟩ :=
   Pool.create_invG cfg src (.ord (OrdList.new nodeSize B (B + 8))) arrays env (OrdList.new_inv nodeSize B hB) rfl
     (intrusiveNodeSize_pos nodeSize) henv
 
 /-- the same for the unordered list (no list object to keep out of the blocks) -/
 theorem C01_freepool_create (cfg : Cfg) (src : Src) (nodeSize : Nat) (arrays : Bool) (env : List (Option Nat))
-    (henv : EnvOkG none (Pool.create cfg src (.free (FreeList.new nodeSize)) arrays env).st.arena.used) :
-    GInvG (intrusiveNodeSize nodeSize) none ⟨(Pool.create cfg src (.free (FreeList.new nodeSize)) arrays env).st, []⟩ :=
+    (henv : EnvOkG .unordered (Pool.create cfg src (.free (FreeList.new nodeSize)) arrays env).st.arena.used) :
+    GInvG (intrusiveNodeSize nodeSize) .unordered ⟨(Pool.create cfg src (.free (FreeList.new nodeSize)) arrays env).st, []⟩ :=
   Pool.create_invG cfg src (.free (FreeList.new nodeSize)) arrays env rfl rfl (intrusiveNodeSize_pos nodeSize) henv
+
+/-- the same for the **small node list** (`P` = address of the proxy chunk header inside the pool object) -/
+theorem C01_smallpool_create (cfg : Cfg) (src : Src) (nodeSize P : Nat) (hns : 0 < nodeSize) (arrays : Bool)
+    (env : List (Option Nat))
+    (henv : EnvOkG (.small P) (Pool.create cfg src (.small (SmallList.new nodeSize P)) arrays env).st.arena.used) :
+    GInvG nodeSize (.small P) ⟨(Pool.create cfg src (.small (SmallList.new nodeSize P)) arrays env).st, []⟩ :=
+  Pool.create_invG cfg src (.small (SmallList.new nodeSize P)) arrays env (SmallList.new_ok nodeSize P hns) rfl hns henv
 
 /-- **The invariant is inductive**: preserved by every history of node/array allocations, `try_` variants and
 releases, for both intrusive lists. `_partial`: `hfit`, see the header. -/
-theorem C01_ipool_invariant_partial (cfg : Cfg) (e : EnvS) (ns : Nat) (o : Option Nat) (g : GPool) (k : Nat)
+theorem C01_ipool_invariant_partial (cfg : Cfg) (e : EnvS) (ns : Nat) (o : AnyList.ListObj) (g : GPool) (k : Nat)
     (ops : List POp) (hI : GInvG ns o g) (hfit : ∀ op ∈ ops, op.Fits ns)
     (henv : EnvOkG o (g.run cfg e k ops).1.p.arena.used) :
     GInvG ns o (g.run cfg e k ops).1 :=
@@ -59,7 +72,7 @@ theorem C01_ipool_invariant_partial (cfg : Cfg) (e : EnvS) (ns : Nat) (o : Optio
 /-- **C01 (live allocations), intrusive pools.** At the end of any contract-respecting history — hence at every
 point of it — the byte ranges handed out and not yet released are pairwise disjoint and each lies inside the usable
 part of a block the pool holds. -/
-theorem C01_ipool_live_disjoint_inside_partial (cfg : Cfg) (e : EnvS) (ns : Nat) (o : Option Nat) (g : GPool) (k : Nat)
+theorem C01_ipool_live_disjoint_inside_partial (cfg : Cfg) (e : EnvS) (ns : Nat) (o : AnyList.ListObj) (g : GPool) (k : Nat)
     (ops : List POp) (hI : GInvG ns o g) (hfit : ∀ op ∈ ops, op.Fits ns)
     (henv : EnvOkG o (g.run cfg e k ops).1.p.arena.used) :
     (g.run cfg e k ops).1.live.Pairwise (fun r s => r.1 + r.2 ≤ s.1 ∨ s.1 + s.2 ≤ r.1) ∧
@@ -71,7 +84,7 @@ theorem C01_ipool_live_disjoint_inside_partial (cfg : Cfg) (e : EnvS) (ns : Nat)
 /-- **C01 (frame), intrusive pools.** Every free cell `[x, x + ns)` — the only memory into which the allocator
 writes (link words: the next pointer, or the xor of both neighbours; debug fill patterns) — is disjoint from every
 live byte range; free cells are pairwise disjoint and inside used blocks. -/
-theorem C01_ipool_frame_partial (cfg : Cfg) (e : EnvS) (ns : Nat) (o : Option Nat) (g : GPool) (k : Nat)
+theorem C01_ipool_frame_partial (cfg : Cfg) (e : EnvS) (ns : Nat) (o : AnyList.ListObj) (g : GPool) (k : Nat)
     (ops : List POp) (hI : GInvG ns o g) (hfit : ∀ op ∈ ops, op.Fits ns)
     (henv : EnvOkG o (g.run cfg e k ops).1.p.arena.used) :
     let g' := (g.run cfg e k ops).1
@@ -87,14 +100,32 @@ nodes are strictly ascending, whose capacity counter equals the number of nodes,
 an adjacent pair of list positions — the precondition under which `find_pos` is correct
 (`C16.C16_ordered_valid_never_reported`, `C04.C04_ordered_release_valid`). -/
 theorem C01_ordpool_list_wellformed_partial (cfg : Cfg) (e : EnvS) (ns B : Nat) (g : GPool) (k : Nat)
-    (ops : List POp) (hI : GInvG ns (some B) g) (hfit : ∀ op ∈ ops, op.Fits ns)
-    (henv : EnvOkG (some B) (g.run cfg e k ops).1.p.arena.used) :
+    (ops : List POp) (hI : GInvG ns (.ordered B) g) (hfit : ∀ op ∈ ops, op.Fits ns)
+    (henv : EnvOkG (.ordered B) (g.run cfg e k ops).1.p.arena.used) :
     ∃ l : OrdList, (g.run cfg e k ops).1.p.list = .ord l ∧ l.B = B ∧ l.ns = ns ∧ l.Inv := by
   have h := GPool.run_invG cfg e ops g k hI hfit henv
   cases hl : (g.run cfg e k ops).1.p.list with
   | free fl => have := h.objEq; rw [hl] at this; simp [AnyList.obj] at this
-  | small sl => have := h.sinv; rw [hl] at this; exact absurd this (by simp [AnyList.SInv])
+  | small sl => have := h.objEq; rw [hl] at this; simp [AnyList.obj] at this
   | ord l =>
+    refine ⟨l, rfl, ?_, ?_, ?_⟩
+    · have := h.objEq; rw [hl] at this; simpa [AnyList.obj] using this
+    · have := h.nsEq; rw [hl] at this; simpa [AnyList.nodeSize] using this
+    · have := h.sinv; rw [hl] at this; simpa [AnyList.SInv] using this
+
+/-- **The small node list stays well formed** along every history: free chains duplicate-free and in range, counters
+exact, the chunk ring sorted with valid cursors — the preconditions of the C16 theorems about the chunk search
+(`C16_small_valid_never_reported`, `C16_small_invalid_reported`). -/
+theorem C01_smallpool_list_wellformed_partial (cfg : Cfg) (e : EnvS) (ns P : Nat) (g : GPool) (k : Nat)
+    (ops : List POp) (hI : GInvG ns (.small P) g) (hfit : ∀ op ∈ ops, op.Fits ns)
+    (henv : EnvOkG (.small P) (g.run cfg e k ops).1.p.arena.used) :
+    ∃ l : SmallList, (g.run cfg e k ops).1.p.list = .small l ∧ l.P = P ∧ l.ns = ns ∧
+      SmallOk l (g.run cfg e k ops).1.p.arena.used (g.run cfg e k ops).1.live := by
+  have h := GPool.run_invG cfg e ops g k hI hfit henv
+  cases hl : (g.run cfg e k ops).1.p.list with
+  | free fl => have := h.objEq; rw [hl] at this; simp [AnyList.obj] at this
+  | ord ol => have := h.objEq; rw [hl] at this; simp [AnyList.obj] at this
+  | small l =>
     refine ⟨l, rfl, ?_, ?_, ?_⟩
     · have := h.objEq; rw [hl] at this; simpa [AnyList.obj] using this
     · have := h.nsEq; rw [hl] at this; simpa [AnyList.nodeSize] using this
@@ -102,7 +133,7 @@ theorem C01_ordpool_list_wellformed_partial (cfg : Cfg) (e : EnvS) (ns B : Nat) 
 
 /-- **C01 at every point of a history**, intrusive pools: split any history as `ops1 ++ ops2`; under the environment
 hypothesis on the end of the whole history the state after `ops1` satisfies the invariant. -/
-theorem C01_ipool_every_point_partial (cfg : Cfg) (e : EnvS) (ns : Nat) (o : Option Nat) (g : GPool) (k : Nat)
+theorem C01_ipool_every_point_partial (cfg : Cfg) (e : EnvS) (ns : Nat) (o : AnyList.ListObj) (g : GPool) (k : Nat)
     (ops1 ops2 : List POp) (hI : GInvG ns o g) (hfit : ∀ op ∈ ops1 ++ ops2, op.Fits ns)
     (henv : EnvOkG o (g.run cfg e k (ops1 ++ ops2)).1.p.arena.used) :
     GInvG ns o (g.run cfg e k ops1).1 := by
@@ -115,7 +146,7 @@ theorem C01_ipool_every_point_partial (cfg : Cfg) (e : EnvS) (ns : Nat) (o : Opt
 intrusive list answers `done` (no invalid-pointer report, no assertion, no crash) and keeps the invariant.
 For the ordered list this is the statement that `find_pos` finds the position of every pointer the pool handed out,
 from every cursor state reachable in any history. -/
-theorem C01_ipool_release_succeeds (cfg : Cfg) (ns : Nat) (o : Option Nat) (g : GPool) (i a b : Nat)
+theorem C01_ipool_release_succeeds (cfg : Cfg) (ns : Nat) (o : AnyList.ListObj) (g : GPool) (i a b : Nat)
     (hI : GInvG ns o g) (ho : ObjOut o g.p.arena.used) (hi : g.live[i]? = some (a, b)) :
     let r := if b > ns then g.p.deallocateBytes cfg a b else g.p.deallocateNode cfg a
     r.out = .done ∧ GInvG ns o ⟨r.st, g.live.eraseIdx i⟩ := by
@@ -142,8 +173,23 @@ example :
     let c := Pool.create cfg (.growing 2 1 96) (.ord (OrdList.new 8 64 72)) true [e 0]
     let g0 : GPool := ⟨c.st, []⟩
     let g := (g0.run cfg e 1 ops).1
-    EnvOkG (some 64) c.st.arena.used ∧ (∀ op ∈ ops, op.Fits (intrusiveNodeSize 8)) ∧
-      EnvOkG (some 64) g.p.arena.used ∧ g.p.arena.used.length = 2 ∧ g.live.length = 5 := by
+    EnvOkG (.ordered 64) c.st.arena.used ∧ (∀ op ∈ ops, op.Fits (intrusiveNodeSize 8)) ∧
+      EnvOkG (.ordered 64) g.p.arena.used ∧ g.p.arena.used.length = 2 ∧ g.live.length = 5 := by
+  decide
+
+/-- … and for a **small node pool** (4-byte nodes; the first block holds one chunk of 3 nodes, the pool grows into a
+second block placed *below* the first one, so the new chunk is spliced in front of the ring), with releases out of
+order and a refused array request; the proxy chunk header (at 64) lies outside both blocks. -/
+example :
+    let cfg : Cfg := {}
+    let e : EnvS := fun k => if k = 0 then some 5000 else if k = 1 then some 1000 else none
+    let ops : List POp := [.allocNode, .allocNode, .allocNode, .allocNode, .dealloc 3, .dealloc 0, .tryAllocNode,
+      .allocNode, .dealloc 1, .allocArray 2]
+    let c := Pool.create cfg (.growing 2 1 60) (.small (SmallList.new 4 64)) false [e 0]
+    let g0 : GPool := ⟨c.st, []⟩
+    let g := (g0.run cfg e 1 ops).1
+    EnvOkG (.small 64) c.st.arena.used ∧ (∀ op ∈ ops, op.Fits 4) ∧
+      EnvOkG (.small 64) g.p.arena.used ∧ g.p.arena.used.length = 2 ∧ g.live = [(1052, 4), (5056, 4), (5052, 4)] := by
   decide
 
 end MemVerif.Props.C01Ord
